@@ -270,3 +270,80 @@ func VerifH_C15_max_size_insert() {
 	vrt.Assert(verifBytesEq(got, small), "heap-persist-bytes")
 	vrt.Covered("max-size-done")
 }
+
+// C15 beyond one direct block: objects are inserted until the heap has grown an indirect root (block 64 bytes; three or
+// four objects of 20..30 bytes), then one operation (get / same-size overwrite / delete) on an object chosen by
+// index — in the first block or in a later one — and every live object still returns exactly its bytes
+func VerifH_C15_indirect_ops() {
+	vrt.LoopBound(5000)
+	fh := NewWritableFractalHeap(64)
+	type obj struct {
+		id   []byte
+		data []byte
+		live bool
+	}
+	k := 3 + vrt.Choice(2)
+	objs := make([]obj, 0, 4)
+	for i := 0; i < k; i++ {
+		d := vrt.Bytes(20 + 5*vrt.Choice(3))
+		id, err := fh.InsertObject(d)
+		if err != nil {
+			continue // an insert may be refused; then it must not have changed anything (checked by the step harness)
+		}
+		objs = append(objs, obj{id: id, data: d, live: true})
+	}
+	vrt.Assume(len(objs) >= 3)
+	vrt.Assert(fh.RootIndirectBlock != nil, "heap-grew-beyond-one-block")
+	for a := range objs {
+		for b := a + 1; b < len(objs); b++ {
+			vrt.Assert(!verifBytesEq(objs[a].id, objs[b].id), "heap-ids-distinct")
+		}
+	}
+	t := vrt.Choice(len(objs))
+	switch vrt.Choice(3) {
+	case 0:
+	case 1:
+		nd := vrt.Bytes(len(objs[t].data))
+		err := fh.OverwriteObject(objs[t].id, nd)
+		vrt.AssertNoErr(err, "heap-overwrite-live-ok")
+		if err == nil {
+			objs[t].data = nd
+		}
+	default:
+		err := fh.DeleteObject(objs[t].id)
+		vrt.AssertNoErr(err, "heap-delete-live-ok")
+		if err == nil {
+			objs[t].live = false
+		}
+	}
+	for _, o := range objs {
+		if !o.live {
+			continue
+		}
+		got, err := fh.GetObject(o.id)
+		vrt.AssertNoErr(err, "heap-get-live-ok")
+		vrt.Assert(verifBytesEq(got, o.data), "heap-get-returns-stored-bytes")
+	}
+	vrt.Covered("heap-indirect-done")
+	// written out, the read-only heap reader returns every live object
+	sb := &core.Superblock{Version: 2, OffsetSize: 8, LengthSize: 8, Endianness: binary.LittleEndian}
+	mem := &verifMem{next: 64}
+	addr, err := fh.WriteToFile(mem, mem, sb)
+	vrt.AssertNoErr(err, "heap-write-ok")
+	if err != nil {
+		return
+	}
+	ro, err := OpenFractalHeap(mem, addr, 8, 8, binary.LittleEndian)
+	vrt.AssertNoErr(err, "heap-reader-open-ok")
+	if err != nil {
+		return
+	}
+	for _, o := range objs {
+		if !o.live {
+			continue
+		}
+		got, err := ro.ReadObject(o.id)
+		vrt.AssertNoErr(err, "heap-reader-get-ok")
+		vrt.Assert(verifBytesEq(got, o.data), "heap-reader-bytes")
+	}
+}
